@@ -34,6 +34,7 @@ func propC09() Property {
 			{ID: "C09-K5", Desc: "recursive cycles in the cone are guarded or reviewed", Min: 2, Run: c09K5},
 			{ID: "C09-K6", Desc: "garbage does not wedge the session", Min: 2, Run: c09K6},
 			{ID: "C09-K7", Desc: "no send on a closed channel: close → nil → drain on teardown (= C08-R10)", Min: 2, Run: c08R10},
+			{ID: "C09-K9", Desc: "the stash replay loop consumes the entry it replays: a replay that leaves the expected number unchanged cannot spin (= C04-R5)", Min: 3, Run: c04R5},
 			{ID: "C09-K8", Desc: "a wire-supplied EndSeqNo is clipped to what exists before it drives the replay loop (= C03-R1)", Min: 2, Run: c03R1},
 		},
 	}
